@@ -23,6 +23,8 @@ pub struct NetState {
     pub dl: Option<Vec<u8>>,
     /// Result of the i-th event post of this op (true = ok); default ok.
     pub event_results: Vec<bool>,
+    /// the error texts of a failing check / download carry a NUL byte (bit 7 of an update's `ef`)
+    pub nul_errors: bool,
     pub events_seen: usize,
 }
 
@@ -39,6 +41,7 @@ pub static NET: Mutex<NetState> = Mutex::new(NetState {
     raw_body: None,
     dl: None,
     event_results: Vec::new(),
+    nul_errors: false,
     events_seen: 0,
 });
 
@@ -146,7 +149,14 @@ fn check_cb(_url: &str, req: hooks::PatchCheckRequest) -> anyhow::Result<hooks::
     }
     let resp = if ROLE.with(|r| r.get()) == Some(1) { RESP_B.lock().unwrap().clone() } else { st.resp.clone() };
     match &resp {
-        None => anyhow::bail!("verif: check failed"),
+        None => {
+            if st.nul_errors {
+                // what a server error echoed into the message can contain: the C string conversion must cope
+                crate::http::CHECK_FAULTED.store(true, Ordering::SeqCst);
+                anyhow::bail!("verif: check failed: the server said \u{0}\u{1}oops")
+            }
+            anyhow::bail!("verif: check failed")
+        }
         Some(r) => Ok(hooks::PatchCheckResponse {
             patch_available: r.available,
             patch: r.patch.as_ref().map(|o| hooks::Patch {
@@ -166,7 +176,13 @@ fn download_cb(url: &str) -> anyhow::Result<Vec<u8>> {
     let mut st = NET.lock().unwrap();
     st.log.push(NetAct::Download(url.to_string()));
     match &st.dl {
-        None => anyhow::bail!("verif: download failed"),
+        None => {
+            if st.nul_errors {
+                crate::http::DL_FAULTED.store(true, Ordering::SeqCst);
+                anyhow::bail!("verif: download failed: \u{0} in the body")
+            }
+            anyhow::bail!("verif: download failed")
+        }
         Some(b) => Ok(b.clone()),
     }
 }
@@ -555,7 +571,8 @@ pub fn exec_call(op: &Op, storage: &Path) -> String {
                 let mut st = NET.lock().unwrap();
                 st.resp = resp.clone();
                 st.dl = dl.clone();
-                st.event_results = (0..8).map(|i| (evf >> i) & 1 == 0).collect();
+                st.event_results = (0..7).map(|i| (evf >> i) & 1 == 0).collect();
+                st.nul_errors = false;
             }
             let c = chan_ptr(chan);
             let r = capi::shorebird_update_with_result(c.as_ref().map(|c| c.as_ptr()).unwrap_or(std::ptr::null()));
@@ -617,13 +634,14 @@ impl Runner {
             st.raw_body = None;
             st.dl = None;
             st.event_results.clear();
+            st.nul_errors = false;
             st.events_seen = 0;
         }
         let http = crate::http::HTTP_MODE.load(Ordering::SeqCst);
+        crate::http::CHECK_FAULTED.store(false, Ordering::SeqCst);
+        crate::http::DL_FAULTED.store(false, Ordering::SeqCst);
         if http {
             crate::http::OP_NONCE.store(crate::http::nonce_of(&render_op(op, None)), Ordering::SeqCst);
-            crate::http::CHECK_FAULTED.store(false, Ordering::SeqCst);
-            crate::http::DL_FAULTED.store(false, Ordering::SeqCst);
         }
         act_log_start();
         let ret = match op {
@@ -659,7 +677,9 @@ impl Runner {
                 act_log_pause();
                 if http {
                     self.inited = self.inited || ok;
-                } else {
+                } else if !self.inited {
+                    // the scripted callbacks are registered once, after the first successful init: a refused later init
+                    // must leave them in use (C14), so they are not registered again after it
                     self.inited = install_net_hooks();
                 }
                 act_log_resume();
@@ -718,7 +738,8 @@ impl Runner {
                     let mut st = NET.lock().unwrap();
                     st.resp = resp.clone();
                     st.dl = dl.clone();
-                    st.event_results = (0..8).map(|i| (evf >> i) & 1 == 0).collect();
+                    st.event_results = (0..7).map(|i| (evf >> i) & 1 == 0).collect();
+                    st.nul_errors = evf & 0x80 != 0;
                 }
                 let c = Self::chan_ptr(chan);
                 let r = capi::shorebird_update_with_result(
@@ -732,7 +753,7 @@ impl Runner {
                 };
                 unsafe { capi::shorebird_free_update_result(r as *mut capi::UpdateResult) };
                 let mut tok = classify_update_message(status, &msg);
-                if http && tok.ends_with(":other") {
+                if tok.ends_with(":other") {
                     // with real HTTP the error text is reqwest's; the failing stage is the one the server made fail
                     if crate::http::CHECK_FAULTED.load(Ordering::SeqCst) {
                         tok = format!("s{}:check", status);
